@@ -42,17 +42,6 @@ Definition tok_cr (s : stok) : Prop :=
   | _ => True
   end.
 
-Lemma num_run_chars h : forall s e a b, num_run h e s = (a, b) -> forallb (fun c => numch c || is_sign c) a = true.
-Proof.
-  induction s as [|c r IH]; intros e a b H; [injection H as <- <-; reflexivity|].
-  rewrite num_run_cons in H. destruct (numch c) eqn:En.
-  - destruct (num_run h (expo h c) r) as [x y] eqn:E. injection H as <- <-. cbn [forallb]. rewrite En. cbn [orb andb]. eapply IH, E.
-  - destruct (e && is_sign c) eqn:Es.
-    + destruct (num_run h false r) as [x y] eqn:E. injection H as <- <-. cbn [forallb].
-      apply andb_true_iff in Es. destruct Es as [_ ->]. rewrite orb_true_r. cbn [andb]. eapply IH, E.
-    + injection H as <- <-. reflexivity.
-Qed.
-
 Lemma symbols_nocr : forallb nocr spec_symbols = true.
 Proof. vm_compute. reflexivity. Qed.
 
@@ -85,9 +74,9 @@ Proof.
   - (* quoted string *) intros Hl. lia.
   - (* number *)
     pose proof (spec_number_kind _ _ _ H0) as K. rewrite K. apply Hno.
-    unfold spec_number in H0. destruct (num_run (is_hex_prefix s) false s) as [run r0] eqn:E.
+    unfold spec_number in H0. destruct (num_split s) as [run r0] eqn:E.
     destruct (spec_numeral run) as [[n d]|]; [|discriminate]. injection H0 as <- <-. cbn [s_raw].
-    eapply forallb_nocr; [eapply num_run_chars, E | reflexivity].
+    eapply forallb_nocr; [eapply num_split_chars, E | reflexivity].
   - (* word *)
     destruct (word_shape _ _ _ _ H H0) as (Hn & _). apply is_name_all in Hn.
     destruct (mem_bytes a spec_keywords); cbn [s_kind mk s_raw]; [|exact I].
